@@ -1,6 +1,7 @@
 package crypto
 
 import (
+	"fmt"
 	"slices"
 
 	"github.com/relab/hotstuff"
@@ -83,3 +84,15 @@ var (
 	_ hotstuff.QuorumSignature = (*Multi[Signature])(nil)
 	_ hotstuff.IDSet           = (*Multi[Signature])(nil)
 )
+
+// checkDistinctSigners returns an error if a signer appears more than once in the multi-signature.
+func checkDistinctSigners[T Signature](sig Multi[T]) error {
+	seen := make(map[hotstuff.ID]struct{}, len(sig))
+	for _, s := range sig {
+		if _, ok := seen[s.Signer()]; ok {
+			return fmt.Errorf("duplicate signer %d", s.Signer())
+		}
+		seen[s.Signer()] = struct{}{}
+	}
+	return nil
+}
